@@ -615,8 +615,10 @@ class MinimizerScipyOptimize(MinimizerBase):
         self._save_state()
         _par_id = self._par_names.index(parameter_name)
         _y_offset = self.function_value if subtract_min else 0
-        _bound_low, _bound_high, _arrow_specs = self._get_profile_bound(parameter_name, low, high, sigma, cl, subtract_min, arrows)
-        self._load_state()
+        try:
+            _bound_low, _bound_high, _arrow_specs = self._get_profile_bound(parameter_name, low, high, sigma, cl, subtract_min, arrows)
+        finally:
+            self._load_state()  # also when the request is refused after the bounds were searched with the live minimizer
         _par = np.linspace(start=_bound_low, stop=_bound_high, num=size, endpoint=True)
 
         _y = np.zeros(size)
